@@ -340,8 +340,10 @@ class Run:
 def main():
     ap = argparse.ArgumentParser()
     ap.add_argument('prop')
-    ap.add_argument('--tier', default=os.environ.get('VERIF_TIER', 'quick'))
+    ap.add_argument('--tier', default=os.environ.get('VERIF_TIER', 'quick') or 'quick')
+    ap.add_argument('--replay', default=None, help='re-check the obligations recorded in a replay file against the current tree')
     a = ap.parse_args()
+    if a.tier not in ('quick', 'thorough'): a.tier = 'quick'
     seed = int(os.environ.get('VERIF_SEED', '0') or 0)
     run = Run(a.prop, a.tier, seed)
     try:
@@ -356,6 +358,15 @@ def main():
         run.evidence([], 'undecided: timeout')
         print(f"UNDECIDED property={a.prop} timeout {e}")
         sys.exit(2)
+    if a.replay:
+        rec = json.load(open(a.replay))
+        want = set(f['key'] for f in rec['failed_obligations'])
+        got = set(f['key'] for f in run.failures)
+        for k in sorted(want):
+            print(('REPRODUCED ' if k in got else 'NOT-REPRODUCED ') + k)
+        for f in rec['failed_obligations']:
+            if f.get('replay_cmd'): print('native replay command:', f['replay_cmd'])
+        sys.exit(1 if want & got else 0)
     if viol:
         run.evidence(viol, 'violation')
         path = run.replay(viol)
